@@ -126,7 +126,12 @@ class Cache:
         self.unit = db.unit(unit_name)
         self.cls = cls
         self.entry_rec = entry_rec
-        self.f = {n: db.one(unit_name, '%s::%s' % (cls, n)) for n in ('pop', 'push', 'insert', 'get')}
+        # insert/get are the interface; pop/push are helpers that a configuration may or may not have
+        self.f = {n: db.one(unit_name, '%s::%s' % (cls, n)) for n in ('insert', 'get')}
+        for n in ('pop', 'push'):
+            fs = db.find(unit_name, '%s::%s' % (cls, n))
+            if len(fs) == 1:
+                self.f[n] = fs[0]
         self.ctor = db.one(unit_name, '%s::cache' % cls)
         self.N = None
 
@@ -401,7 +406,7 @@ def cas_interference(cache, rep, capacity=4, depth=1):
                         n += 0 if state['done'] else 1
                         nviol += 1
                         if nviol <= 12:
-                            rep.fail('F.cas.retry', scenario, v.where or unit.loc(cache.f['pop']), 'a failed compare-exchange is retried on the freshly observed head', v.what, cache.cls)
+                            rep.fail('F.cas.retry', scenario, v.where or unit.loc(cache.f.get('pop') or cache.f['get']), 'a failed compare-exchange is retried on the freshly observed head', v.what, cache.cls)
     if not nviol:
         rep.floor('F.cas.retry', n, 24)
         if forced < 12:
